@@ -69,7 +69,7 @@ func genSched(r *Rng, phase string) []*Scenario {
 			}
 		case "format":
 			if r.Chance(0.15) {
-				t.Writer = &WriterScn{Flavour: r.Pick([]string{"writer", "stringwriter"}), FailAt: r.Intn(20), ByteBudget: -1}
+				t.Writer = &WriterScn{Flavour: r.Pick(writerFlavours), FailAt: r.Intn(20), ByteBudget: -1}
 			}
 		case "walk":
 			t.Walk = genWalkScn(r, 4)
